@@ -36,7 +36,10 @@ def custom(ctx):
     except SystemExit:
         pass
     if not cases:
-        cases = ctx.cases_from("C01", limit=per)
+        try:
+            cases = ctx.cases_from("C01", limit=per)
+        except SystemExit:
+            cases = []
     info = {"cases": len(cases), "modes": []}
     failures = []
     b = ctx.build("pinned")
